@@ -1520,6 +1520,10 @@ func runC13(res *hx.Result, rng *hx.Rng, tier string, outdir string) {
 		c13runFwd(res, rng, tier, outdir)
 		return
 	}
+	// the client side with readers that the harness controls (c13fwd.go).  First: it reads the state of its
+	// forwarders off runtime.Stack dumps, whose cost grows with the goroutines the other families leave behind
+	// (40 minutes instead of 3 in the thorough tier when it ran last).  Its own random stream.
+	c13runFwd(res, hx.NewRng(res.Seed*0x9e3779b97f4a7c15+13), tier, outdir)
 	// defect switches: replay of the C13_refuted_* witnesses on the implementation
 	w17, on17 := c13sched17()
 	w16, on16 := c13sched16()
@@ -1639,6 +1643,4 @@ func runC13(res *hx.Result, rng *hx.Rng, tier string, outdir string) {
 	cf.Flush()
 	// registrations with caller-chosen ids (c13raw.go)
 	c13runRaw(res, rng, tier, outdir, cfg)
-	// the client side with readers that the harness controls (c13fwd.go)
-	c13runFwd(res, rng, tier, outdir)
 }
